@@ -283,8 +283,7 @@ class ClassFrames:
                             if isinstance(t, ast.Attribute) and isinstance(t.value, ast.Name) and t.value.id == "self" and t.attr.startswith("_") \
                                     and name not in ("__init__",) and any(isinstance(g, ast.Call) and ast.unparse(g.func) == "hasattr" and len(g.args) == 2
                                                                           and isinstance(g.args[1], ast.Constant) and g.args[1].value == t.attr for g in ast.walk(node)) \
-                                    and any(isinstance(r_, ast.Return) and r_.value is not None and ast.unparse(r_.value) in (f"self.{t.attr}", f"getattr(self, '{t.attr}')")
-                                            for r_ in ast.walk(node)):
+                                    and not isinstance(n.value, ast.Constant):          # a constant stored behind a hasattr guard is a flag ("already warned"), not a memo
                                 self._fillers.setdefault(name, t.attr)
         return self._fillers
 
@@ -364,6 +363,8 @@ class ClassFrames:
                         bind(t, p if (p and p != "self") else None, n)
                     else:
                         note_write(self._path(t, aliases), n.lineno, "store")
+                        if isinstance(t, ast.Attribute) and isinstance(t.value, ast.Name) and t.value.id == "self" and t.attr.startswith("_"):
+                            info.memo_sets.setdefault(t.attr, n.lineno)        # plain store into a private attribute (same role as setattr(self, '_x', v))
             elif isinstance(n, ast.AugAssign):
                 if isinstance(n.target, ast.Name):
                     p = aliases.get(n.target.id)
